@@ -3,7 +3,7 @@
    The strategy models are those of C08 (coq/C08/{Range,RoundRobin,Sticky}.v), the notions are in C13/Model.v. *)
 From Coq Require Import List ZArith.
 From SV Require Import C08.Common C08.Range C08.RoundRobin C08.Sticky C08.Valid C13.Model
-  C13.ProofsRange C13.ProofsRR C13.ProofsStickyBalanced C13.ProofsStickyFixed C13.ProofsStickyLeave.
+  C13.ProofsRange C13.ProofsRR C13.ProofsStickyBalanced C13.ProofsStickyFixed C13.ProofsStickyLeave C13.ProofsStickyJoin2.
 Import ListNotations.
 Open Scope Z_scope.
 
@@ -51,12 +51,10 @@ Theorem c13_sticky_fixed_point : forall fuel o ms ts p g,
 Proof. exact sticky_fixed_point. Qed.
 Print Assumptions c13_sticky_fixed_point.
 
-(* leave / join / any change of the group: what is proved of "the others keep everything" is that nothing is lost before
-   performReassignments: a member that reports a partition (nobody else reporting it), still subscribes to its topic and whose
-   partition still exists, holds it when performReassignments starts.  Partial: the full statements
-   (C13/ProofsStickyFixed.v: sticky_leave_keeps_statement, sticky_join_no_shuffle_statement, sticky_no_pair_swap_statement)
-   additionally need that performReassignments moves nothing between the members concerned; that is evaluated on every
-   honest chain of the check (monitor) and not proved. *)
+(* any change of the group (several joins and leaves at once, subscription changes, partitions added or dropped): nothing is lost
+   before performReassignments - a member that reports a partition (nobody else reporting it), still subscribes to its topic and
+   whose partition still exists, holds it when performReassignments starts.  Partial with respect to "the others keep what they had"
+   for arbitrary changes; for one leave and one join with identical subscriptions the full statements are proved below. *)
 Theorem c13_sticky_leave_join_keep_partial : forall o ms ts p g pr,
   wf_members ms -> wf_topics ts -> NoDup (assigned p) ->
   sticky_prepare o (map (report p g) ms) ts = Some pr ->
@@ -74,3 +72,43 @@ Theorem c13_sticky_leave_keeps : forall fuel o ms ts p g leaver p',
   forall m x, m <> leaver -> In x (holds p m) -> In x (holds p' m).
 Proof. exact sticky_leave_keeps. Qed.
 Print Assumptions c13_sticky_leave_keeps.
+
+(* sticky is sticky, join (identical subscriptions, each topic listed once, every topic of the map subscribed - what
+   consumerGroup.balance passes): p a valid balanced plan of the old group ms, the old members report what they hold in p, the new
+   member reports nothing: every partition either stays with its old owner or goes to the new member - no partition moves
+   between old members.  Proof: sortPartitions lists the partitions round robin over the members (always one with the most left),
+   so during the single modifying pass the old members stay within one of each other, the new member stays the strict minimum and
+   is the target of every reassignment; afterwards everybody is within one and the next pass stops at isBalanced. *)
+Theorem c13_sticky_join_no_shuffle : forall fuel o ms ts p g newm p',
+  wf_members (newm :: ms) -> wf_topics ts -> identical_subscriptions (newm :: ms) ->
+  (forall mm, In mm (newm :: ms) -> NoDup (m_topics mm)) ->
+  (forall t ps, In (t, ps) ts -> In t (m_topics newm)) ->
+  valid_plan ms ts p -> kafka_balanced ms p ->
+  sticky_plan fuel true o (map (report p g) (newm :: ms)) ts = SOk p' ->
+  forall m x, In x (holds p m) -> In x (holds p' m) \/ In x (holds p' (m_id newm)).
+Proof. exact sticky_join_no_shuffle. Qed.
+Print Assumptions c13_sticky_join_no_shuffle.
+
+(* partitions never swap owners pairwise within a topic: across a replan of the unchanged group (any subscriptions), across one
+   leave and across one join (identical subscriptions).  For arbitrary changes the clause (sticky_no_pair_swap_statement) is
+   monitored only. *)
+Theorem c13_sticky_no_pair_swap_unchanged : forall fuel o ms ts p g p',
+  wf_members ms -> wf_topics ts -> valid_plan ms ts p -> kafka_balanced ms p ->
+  sticky_plan fuel true o (map (report p g) ms) ts = SOk p' -> ~ pair_swap p p'.
+Proof. exact sticky_no_pair_swap_unchanged. Qed.
+Print Assumptions c13_sticky_no_pair_swap_unchanged.
+
+Theorem c13_sticky_no_pair_swap_leave : forall fuel o ms ts p g leaver p',
+  wf_members ms -> wf_topics ts -> identical_subscriptions ms -> valid_plan ms ts p -> kafka_balanced ms p ->
+  sticky_plan fuel true o (map (report p g) (remaining ms leaver)) ts = SOk p' -> ~ pair_swap p p'.
+Proof. exact sticky_no_pair_swap_leave. Qed.
+Print Assumptions c13_sticky_no_pair_swap_leave.
+
+Theorem c13_sticky_no_pair_swap_join : forall fuel o ms ts p g newm p',
+  wf_members (newm :: ms) -> wf_topics ts -> identical_subscriptions (newm :: ms) ->
+  (forall mm, In mm (newm :: ms) -> NoDup (m_topics mm)) ->
+  (forall t ps, In (t, ps) ts -> In t (m_topics newm)) ->
+  valid_plan ms ts p -> kafka_balanced ms p ->
+  sticky_plan fuel true o (map (report p g) (newm :: ms)) ts = SOk p' -> ~ pair_swap p p'.
+Proof. exact sticky_no_pair_swap_join. Qed.
+Print Assumptions c13_sticky_no_pair_swap_join.
